@@ -1232,13 +1232,16 @@ def bs_lookback_price(
     m1 = d1(s - m, t, v)  # d' in the paper
     m2 = d2(s - m, t, v)
 
+    w = v * t.sqrt()
+    # w * d1 is written as s + w ** 2 / 2, which stays finite when w = 0
+    # (at maturity or at zero volatility, where d1 is infinite).
     # when max < strike
     price_0 = spot * (
-        ncdf(d1_value) + v * t.sqrt() * (d1_value * ncdf(d1_value) + npdf(d1_value))
+        ncdf(d1_value) * (1 + s + w.square() / 2) + w * npdf(d1_value)
     ) - strike * ncdf(d2_value)
     # when max >= strike
     price_1 = (
-        spot * (ncdf(m1) + v * t.sqrt() * (m1 * ncdf(m1) + npdf(m1)))
+        spot * (ncdf(m1) * (1 + (s - m) + w.square() / 2) + w * npdf(m1))
         - strike
         + max * (1 - ncdf(m2))
     )
